@@ -130,6 +130,8 @@ def probes(syn, key, val):
         yield 'new-key-shape', 'zzq', {'snippets': {'zzq': body, key: val}}, eq(prop + between + first + after, 'new-key-unreachable')
         yield 'new-key-keyword', 'zzq:' + kw, {'snippets': {'zzq': body, key: val}}, eq(prop + between + kw + after, 'new-key-keyword-not-resolved')
         yield 'new-key-property-scope', 'zzq', {'snippets': {'zzq': body, key: val}, 'context': {'name': '@@property'}}, eq(prop + between + first + after, 'scope:property-prop-unreachable')
+    # a raw body with two-digit tabstop numbers, rendered by the default field callback (tabstops become their placeholders)
+    yield 'new-key-raw-default-field', 'zzr', {'snippets': {'zzr': 'a ${9:x} b ${10:y} c ${0} d ${12}|', key: val}, 'options': {}}, exact('a x b y c  d |', 'raw-body-tabstops-changed')
     # a user-defined key with upper-case letters, typed exactly
     yield 'new-key-camel', 'zzQx', {'snippets': {'zzQx': 'foo-prop:bar|baz', key: val}}, eq('foo-prop' + between + 'bar' + after, 'new-key-unreachable')
     yield 'new-key-camel-keyword', 'zzQx:baz', {'snippets': {'zzQx': 'foo-prop:bar|baz', key: val}}, eq('foo-prop' + between + 'baz' + after, 'new-key-keyword-not-resolved')
